@@ -1,4 +1,96 @@
-From YV Require Import PyBase Token Utils.
-Example c01_smoke : get_txt_pos [mk KText 3 [97;98]%N false; mk KText 9 [99]%N true]
-  = ([97;98;99]%N, [3;4;9]%Z).
-Proof. reflexivity. Qed.
+(* C01 -- every output character has exactly one source position, inside the
+   source.  Only statements here; each is closed by `exact` of a lemma proved
+   in coq/proofs.  Model: coq/model/{Scanner,Utils,Replace,Ml,Tex2txt}.v with
+   the tables generated from /repo (coq/gen/Catalogue.v: py_tables).
+
+   What is proved for every input: (1) lengths, end to end through the whole
+   model of tex2txt(); (2) range for everything in front of and behind the
+   expander -- scanner, error marks, get_txt_pos, phrase replacement, the
+   multi-language split, the +1 of the wrapper.  What is not proved: that the
+   expander (coq/model/{Parser,Expand,Math,Exec}.v) keeps tok_ok; hypothesis
+   of C01_range_behind_expander, checked at run time on every generated case
+   by harness/props/c01.py. *)
+From YV Require Import PyBase ShellMap Token Utils Scanner PState Parser Exec
+                       Replace ReplaceProofs Ml MlProofs TokOk ScanOk Tex2txt
+                       Tex2txtProofs Catalogue.
+Open Scope Z_scope.
+
+(* (1) whatever the options and the input, every returned text -- the single
+   text, or every part of every language -- has a position list of its length *)
+Theorem C01_lengths : forall T is_word files lang multi simple mods define latex
+                             extr repl unkn thresh fuel out,
+  run_tex2txt T is_word files lang multi simple mods define latex extr repl unkn
+              thresh fuel = Ok out ->
+  result_lengths_ok (to_result out).
+Proof. exact run_tex2txt_lengths. Qed.
+Print Assumptions C01_lengths.
+
+(* (2a) table obligation, discharged for the tables read from /repo: no
+   special sequence is empty or shorter than its replacement *)
+Theorem C01_specials_wf : specials_wf py_tables.
+Proof. exact (specials_wfb_ok py_tables (eq_refl true)). Qed.
+Print Assumptions C01_specials_wf.
+
+(* (2b) every token of the scanner lies inside the text with its whole extent *)
+Theorem C01_scan_range : forall latex,
+  Forall (tok_ok py_tables (zlen latex)) (fst (scan (t_scan py_tables) latex)).
+Proof. exact (scan_ok py_tables C01_specials_wf). Qed.
+Print Assumptions C01_scan_range.
+
+(* (2c) an error mark raised at a position inside the text lies inside it,
+   also when it is split at the end of the text *)
+Theorem C01_error_mark_range : forall err p latex,
+  0 <= p < zlen latex ->
+  Forall (tok_ok py_tables (zlen latex))
+         (snd (latex_error (sp_mark (t_scan py_tables)) (sp_verbose (t_scan py_tables))
+                           err p latex)).
+Proof. exact (latex_error_ok py_tables). Qed.
+Print Assumptions C01_error_mark_range.
+
+(* (2d) tokens that are ok give positions 0 <= p < n (reported as p + 1) *)
+Theorem C01_get_txt_pos_range : forall n toks,
+  Forall (tok_ok py_tables n) toks -> Forall (text_kind) toks ->
+  Forall (fun x => 0 <= x < n) (snd (get_txt_pos toks)).
+Proof. exact (get_txt_pos_range py_tables). Qed.
+Print Assumptions C01_get_txt_pos_range.
+
+(* (2e) phrase replacement invents no position *)
+Theorem C01_replace_no_new_position : forall is_space is_alpha is_word lines txt pos t' p',
+  length txt = length pos ->
+  replace_phrases is_space is_alpha is_word txt pos lines = Ok (t', p') ->
+  incl p' pos.
+Proof. exact replace_phrases_incl. Qed.
+Print Assumptions C01_replace_no_new_position.
+
+(* (2f) nor does the multi-language split: lengths agree and every position
+   of every part satisfies what the positions of all tokens satisfy *)
+Theorem C01_ml_parts : forall is_space check_lang thresh (R : Z -> Prop) toks main rot res,
+  Forall (tok_R R) toks ->
+  get_txt_pos_ml is_space check_lang thresh toks main rot = Ok res ->
+  Forall (fun e => Forall (fun tp => length (fst tp) = length (snd tp)
+                                     /\ Forall R (snd tp)) (snd e)) res.
+Proof. exact get_txt_pos_ml_lengths. Qed.
+Print Assumptions C01_ml_parts.
+
+(* (2g) together: if the tokens returned by the expander have their
+   positions in 0 .. n-1, every position of every returned text lies in
+   1 .. n (single text, all language parts, with and without replacements) *)
+Theorem C01_range_behind_expander :
+  forall n T is_word files lang multi simple mods define latex extr repl thresh fuel out,
+  run_tex2txt T is_word files lang multi simple mods define latex extr repl false
+              thresh fuel = Ok out ->
+  (forall st st' toks,
+     init_parser T (fun f => assoc f files) fuel (init_state T lang multi simple true)
+                 (t_builtin T) mods = Ok st ->
+     parse T (fun f => assoc f files) fuel st latex define extr = Ok (st', toks) ->
+     Forall (tok_R (fun x => 0 <= x < n)) toks) ->
+  result_ok (fun p => 1 <= p <= n) (to_result out).
+Proof. exact run_tex2txt_range. Qed.
+Print Assumptions C01_range_behind_expander.
+
+(* the premises are met by real tokens: the scanner's output on a small text *)
+Example C01_nonvacuous :
+  let latex := [92; 102; 111; 111; 32; 97; 45; 45; 98; 10; 10; 99]%N in
+  Forall (tok_ok py_tables (zlen latex)) (fst (scan (t_scan py_tables) latex)) /\
+  snd (get_txt_pos [mk KText 3 [97;98]%N false; mk KText 9 [99]%N true]) = [3;4;9]%Z.
+Proof. split; [apply C01_scan_range | reflexivity]. Qed.
